@@ -1,5 +1,5 @@
 """property id -> rules, explanation of what is / is not decided"""
-from rules import r_coord, r_keyid, r_opcode, r_doaction, r_cancel, r_idle, r_loop, r_traverse, r_repeat, r_chv2, r_wait, r_macro, r_seq, r_override, r_reload
+from rules import r_coord, r_keyid, r_opcode, r_doaction, r_cancel, r_idle, r_loop, r_traverse, r_repeat, r_chv2, r_wait, r_macro, r_seq, r_override, r_reload, r_pipeline, r_dynmacro, r_vkey
 
 PROPS = {
     "C01": {
@@ -111,6 +111,15 @@ PROPS = {
         "not_decided": "behavioural equivalence of the post-reload state with a fresh instance (dynamic state such as caps-word, "
                        "scroll states, recorded macros is deliberately retained); file index selection arithmetic",
     },
+    "C16": {
+        "rules": [r_pipeline.run],
+        "explanation": "Narrow: decides the ordering preconditions of transparent indirection — the pre-processing stages are chained "
+                       "include -> platform -> env -> template, each consuming the previous stage's result (data-flow order of the "
+                       "and_then chain), parse_vars runs after pre-processing and dominates every parser that (transitively) "
+                       "resolves variables, and parse_aliases dominates parse_layers.",
+        "not_decided": "that a rewritten configuration behaves identically; substitution semantics inside templates and variables "
+                       "(e.g. simultaneous vs sequential parameter substitution) — relations between two programs",
+    },
     "C14": {
         "rules": [r_traverse.run_repeat, r_repeat.run_outputs, r_repeat.run],
         "explanation": "Decides: the repeat-table builder passes every nested action of every Action variant (derived from the "
@@ -130,6 +139,24 @@ PROPS = {
                        "and the end index of and/or/not is patched after the children are compiled.",
         "not_decided": "the evaluator's short-circuit logic, break/fallthrough iteration, fork's trigger test, lossy tick "
                        "compression numerics — these are functions of run-time values",
+    },
+    "C18": {
+        "rules": [r_vkey.run_all, r_coord.run],
+        "explanation": "Narrow: (R-VK-SINGLE) FakeKeyAction is interpreted only in handle_fakekey_action, which every trigger path "
+                       "(key press, key release, on-idle, TCP) calls, and each of press/release/tap/toggle produces layout events; "
+                       "(R-COORD) toggle's 'is it pressed' predicate covers exactly the State variants that carry a coordinate; "
+                       "(R-VK-ONCE) the on-idle entry is removed on the path that fires it; (R-VK-REARM) re-activating a "
+                       "hold-for-duration key overwrites the remaining time with a value independent of the old one.",
+        "not_decided": "D-1/D/D+1 timing of hold-for-duration and on-idle; idle measurement — run-time values",
+    },
+    "C19": {
+        "rules": [r_dynmacro.run_all],
+        "explanation": "Decides: (R-DM-RELEASE) in record_press / begin_record_macro / stop_macro every returned recording is "
+                       "dominated by add_release_for_all_unreleased_presses and nothing that writes macro_items runs between that "
+                       "call and the return; (R-DM-REC) in play_macro every queueing of replay items is dominated by inserting the "
+                       "macro id into active_macros, and is unreachable from the true edge of active_macros.contains.",
+        "not_decided": "replay fidelity (same events in the same order), recorded delays, truncation arithmetic — run-time values; "
+                       "the record-stop index arithmetic is audited under C02",
     },
 }
 
